@@ -379,3 +379,138 @@ Proof.
   - intros j x Hx. rewrite F in Hx. destruct (bfind l j) as [x0|] eqn:Fx; [|discriminate]. cbn in Hx. inversion Hx; subst x; clear Hx.
     rewrite Hlvl. eapply C5; eassumption.
 Qed.
+
+(** ** coherence in every reachable state *)
+Definition scoh (s : cst) : Prop := coh (blocks _ _ s) (root _ _ s).
+
+Lemma core_find : forall s j e, cfind (cores s) j = Some e -> exists b, bfind (blocks _ _ s) j = Some b /\ core b = e.
+Proof.
+  intros s j e H. unfold cores in H. rewrite cfind_core in H. destruct (bfind (blocks pstate ccmd s) j) as [b|]; [|discriminate].
+  cbn in H. inversion H. exists b. split; reflexivity.
+Qed.
+
+Lemma wf_act_closed : forall s, wf s -> act_closed (blocks _ _ s) (root _ _ s).
+Proof.
+  intros s (ND & (hr & HR) & HP & _). split; [|split].
+  - destruct (core_find _ _ _ HR) as (b & Fb & Cb). exists b. split; [exact Fb|]. apply (f_equal e_act) in Cb. exact Cb.
+  - intros c Fc. pose proof (find_cfind _ _ _ Fc) as Cc. rewrite HR in Cc. inversion Cc. reflexivity.
+  - intros j c Fc Ac Hr. pose proof (find_cfind _ _ _ Fc) as Cc. pose proof (cfind_some _ _ _ Cc) as [Hid Hin].
+    destruct (HP _ Hin) as (pe & Hpe & _ & Hpa); [cbn; rewrite (bfind_id _ _ _ Fc); exact Hr|].
+    destruct (core_find _ _ _ Hpe) as (pb & Fpb & Cpb). exists pb. split; [exact Fpb|].
+    specialize (Hpa Ac). rewrite <- Cpb in Hpa. exact Hpa.
+Qed.
+
+Lemma scoh_apply : forall s i s' ok, wf s -> scoh s -> c_applyBlock s i = Ok (s', ok) -> scoh s'.
+Proof.
+  intros s i s' ok W C H. unfold c_applyBlock, applyBlock in H.
+  destruct (bfind (blocks pstate ccmd s) i) as [b|] eqn:Fi; [|discriminate].
+  destruct (N.eqb i (root pstate ccmd s)) eqn:R; [discriminate|]. apply N.eqb_neq in R.
+  destruct (bfind (blocks pstate ccmd s) (b_par ccmd b)) as [pb|] eqn:Fp; [|discriminate].
+  destruct (negb (b_act ccmd pb)); [discriminate|].
+  destruct (b_act ccmd b) eqn:Ha; [discriminate|].
+  destruct (child_active ccmd (blocks pstate ccmd s) i); [discriminate|].
+  destruct (b_fc ccmd b); [discriminate|].
+  destruct (is_failed ccmd b) eqn:Hf.
+  { inversion H; subst. exact C. }
+  destruct (N.ltb (b_lvl ccmd b) L_CONNECTED); [discriminate|].
+  destruct (gsexec pstate ccmd cexec cunexec [] (b_gs ccmd b) (pst pstate ccmd s)) as [p' okg].
+  destruct okg; cbn [negb] in H.
+  - match type of H with (if ?c then _ else _) = _ => destruct c eqn:Hr end; [discriminate|].
+    inversion H; subst s' ok; clear H. unfold scoh. cbn [blocks root].
+    eapply (coh_apply_ok _ _ _ _ _ _ C Fi Fp R Hf Hr).
+    destruct (valid_upto ccmd pb L_FULL && _); unfold L_MAYBE, L_FULL; lia.
+  - unfold invalidate_pop in H. cbn [blocks with_pst] in H. rewrite Fi in H.
+    assert (Hfp : b_fp ccmd b = false).
+    { unfold is_failed in Hf. apply orb_false_iff in Hf. destruct Hf as [Hf _]. apply orb_false_iff in Hf. apply Hf. }
+    rewrite Hfp, Hf in H.
+    destruct (on_active_chain pstate ccmd _ i); [discriminate|].
+    destruct (N.eqb (b_lvl ccmd b) L_FULL); cbn in H; inversion H; subst s' ok; clear H.
+    unfold scoh. cbn [blocks root with_blocks with_pst]. eapply coh_apply_fail; try eassumption. apply wf_act_closed. exact W.
+Qed.
+
+Lemma scoh_unapply : forall s i s', scoh s -> c_unapplyBlock s i = Ok s' -> scoh s'.
+Proof.
+  intros s i s' C H. unfold c_unapplyBlock, unapplyBlock in H.
+  destruct (bfind (blocks pstate ccmd s) i) as [b|]; [|discriminate].
+  destruct (N.eqb i (root pstate ccmd s)); [discriminate|].
+  destruct (negb (b_act ccmd b)); [discriminate|].
+  destruct (bfind (blocks pstate ccmd s) (b_par ccmd b)) as [pb|]; [|discriminate].
+  destruct (negb (b_act ccmd pb)); [discriminate|].
+  destruct (child_active ccmd (blocks pstate ccmd s) i); [discriminate|].
+  destruct (N.eqb (napp pstate ccmd s) 0); [discriminate|].
+  inversion H; subst. unfold scoh. cbn [blocks root]. apply coh_unapply. exact C.
+Qed.
+
+Definition winv (s : cst) : Prop := wf s /\ scoh s.
+Lemma winv_apply : forall s i s' ok, winv s -> c_applyBlock s i = Ok (s', ok) -> winv s'.
+Proof.
+  intros s i s' ok (W & C) H. split; [|eapply scoh_apply; eassumption].
+  destruct ok; [exact (proj1 (apply_ok_core _ _ _ W H))|].
+  destruct (apply_fail_core _ _ _ H) as (C1 & N1 & R1 & _). unfold wf. rewrite C1, R1, N1. exact W.
+Qed.
+Lemma winv_unapply : forall s i s', winv s -> c_unapplyBlock s i = Ok s' -> winv s'.
+Proof.
+  intros s i s' (W & C) H. split; [exact (proj1 (unapply_core _ _ _ W H))|eapply scoh_unapply; eassumption].
+Qed.
+Lemma winv_tip_only : forall (s : cst) t, winv s -> winv (mkSt pstate ccmd (blocks _ _ s) (root _ _ s) t (napp _ _ s) (pst _ _ s)).
+Proof. intros s t H. exact H. Qed.
+
+Lemma scoh_setState : forall s to s' ok, quiet s -> scoh s -> c_setState s to = Ok (s', ok) -> scoh s'.
+Proof.
+  intros s to s' ok (W & _) C H. unfold c_setState, setState in H.
+  destruct (bfind (blocks pstate ccmd s) (tip pstate ccmd s)) as [bt|]; [|discriminate].
+  destruct (bfind (blocks pstate ccmd s) to) as [b0|]; [|discriminate].
+  destruct (negb _); [discriminate|].
+  match type of H with bind ?e _ = _ => destruct e as [[s1 ok1]|] eqn:E end; cbn [bind] in H; [|discriminate].
+  assert (T1 : winv s1).
+  { destruct (N.eqb (tip pstate ccmd s) to); [inversion E; subst; split; assumption|].
+    exact (Inv_sm_setState pstate ccmd cexec cunexec winv winv_apply winv_unapply s _ _ s1 ok1 (conj W C) E). }
+  destruct T1 as (_ & C1).
+  destruct (bfind (blocks pstate ccmd s1) to) as [bto|]; [|discriminate].
+  destruct ok1.
+  - destruct (valid_upto ccmd bto L_FULL); inversion H; subst. exact C1.
+  - destruct (negb (is_failed ccmd bto)); [discriminate|]. destruct (negb _); inversion H; subst. exact C1.
+Qed.
+
+Lemma scoh_compare : forall sc cr s c s' r, quiet s -> scoh s -> c_compare sc cr s c = Ok (s', r) -> scoh s'.
+Proof.
+  intros sc cr s c s' r (W & _) C H.
+  exact (proj2 (Inv_compare pstate ccmd cexec cunexec winv winv_apply winv_unapply sc cr winv_tip_only s c s' r (conj W C) H)).
+Qed.
+
+Lemma scoh_connect : forall s i par dup gs s', scoh s -> c_connect s i par dup gs = Ok s' -> scoh s'.
+Proof.
+  intros s i par dup gs s' C H. unfold c_connect, connect in H.
+  destruct (bfind (blocks pstate ccmd s) par) as [pb|] eqn:Fp; [|discriminate].
+  destruct (bfind (blocks pstate ccmd s) i) eqn:Fi; [discriminate|].
+  inversion H; subst. unfold scoh. cbn [blocks root with_blocks]. apply coh_connect; assumption.
+Qed.
+
+Lemma scoh_init : forall r h base, scoh (c_init r h base).
+Proof.
+  intros r h base. unfold scoh, c_init, init. cbn [blocks root].
+  split; [cbn; constructor; [intros []|constructor]|]. split; [cbn; split; [left; reflexivity|exact I]|].
+  split; [|split; [|split]].
+  - intros i c p Hc Hr. cbn in Hc. destruct (N.eqb r i) eqn:E; [apply N.eqb_eq in E; congruence|discriminate].
+  - intros i c p Hc Hr. cbn in Hc. destruct (N.eqb r i) eqn:E; [apply N.eqb_eq in E; congruence|discriminate].
+  - intros i b Hb Ha. cbn in Hb. destruct (N.eqb r i); [|discriminate]. inversion Hb; subst. cbn. split; [reflexivity|unfold L_MAYBE, L_FULL; lia].
+  - intros i b Hb. cbn in Hb. destruct (N.eqb r i); [|discriminate]. inversion Hb; subst. cbn. unfold L_CONNECTED, L_FULL. lia.
+Qed.
+
+Lemma qc_run : forall ops s s', quiet s -> scoh s -> run s ops = Ok s' -> quiet s' /\ scoh s'.
+Proof.
+  induction ops as [|o r IH]; intros s s' Q C H; cbn in H.
+  - inversion H; subst. auto.
+  - destruct (step_op s o) as [s1|] eqn:E; cbn in H; [|discriminate].
+    destruct o as [i par dup gs|to|c sc cr]; cbn in E.
+    + eapply IH; [| |exact H]; [eapply quiet_connect; eassumption|eapply scoh_connect; eassumption].
+    + destruct (c_setState s to) as [[s2 ok]|] eqn:E2; cbn in E; [|discriminate]. inversion E; subst.
+      eapply IH; [| |exact H]; [eapply quiet_setState; eassumption|eapply scoh_setState; eassumption].
+    + destruct (c_compare sc cr s c) as [[s2 rr]|] eqn:E2; cbn in E; [|discriminate]. inversion E; subst.
+      eapply IH; [| |exact H]; [eapply quiet_compare; eassumption|eapply scoh_compare; eassumption].
+Qed.
+
+Theorem reachable_coherent : forall base s, reachable base s -> scoh s.
+Proof.
+  intros base s (r & h & ops & R). eapply qc_run; [apply quiet_init|apply scoh_init|exact R].
+Qed.
